@@ -40,11 +40,17 @@ def gen_params(rng, tier):
             sa.append([d, w])
             sb = copy.deepcopy(sa)
         i = rng.randrange(len(sb))
-        cols = [c for c in range(4)]
+        cols = [c for c in range(4)] + [gen.VEC_COL]
         c = rng.choice(cols)
         old = sb[i][0][c]
-        new = rng.choice([float("inf"), float("-inf"), float("nan"), 100.0, -100.0,
-                          (old + 0.125) if isinstance(old, float) and math.isfinite(old) else 0.0])
+        if c == gen.VEC_COL:
+            # one component of a vector-valued quantity (Bags of range N2)
+            new = list(old)
+            j = rng.randrange(len(new))
+            new[j] = rng.choice([float("nan"), 7.5, (new[j] + 0.5) if isinstance(new[j], float) and math.isfinite(new[j]) else 0.25])
+        else:
+            new = rng.choice([float("inf"), float("-inf"), float("nan"), 100.0, -100.0,
+                              (old + 0.125) if isinstance(old, float) and math.isfinite(old) else 0.0])
         if c == gen.SEL_COL and isinstance(new, float) and math.isinf(new):
             new = 7.0
         sb[i][0][c] = new
